@@ -123,25 +123,41 @@ def _local_names(fn: ast.FunctionDef):
 
 
 def alpha_rename(func: str, suffix="_rn"):
-    """Preserving edit: rename every safely renamable local of top-level function `func`."""
+    """Preserving edit: rename every safely renamable local of function `func` (a dotted path through classes and
+    enclosing functions, e.g. `Class.method` or `outer.inner`; a bare name is a top-level function)."""
+    path = func.split(".")
+
+    def find(body, k):
+        for st in body:
+            if isinstance(st, (ast.FunctionDef, ast.ClassDef)) and st.name == path[k]:
+                if k == len(path) - 1:
+                    return (body, st) if isinstance(st, ast.FunctionDef) else None
+                return find(st.body, k + 1)
+            if isinstance(st, (ast.If, ast.With, ast.Try, ast.For, ast.While)):
+                for blk in ("body", "orelse", "finalbody"):
+                    r = find(getattr(st, blk, []) or [], k)
+                    if r:
+                        return r
+        return None
+
     def f(src):
         tree = ast.parse(src)
-        for st in tree.body:
-            if isinstance(st, ast.FunctionDef) and st.name == func:
-                names = _local_names(st)
-                if not names:
-                    return None
-                mapping = {n: n + suffix for n in names}
-                # avoid collisions
-                allnames = {w.id for w in ast.walk(st) if isinstance(w, ast.Name)}
-                if any(v in allnames for v in mapping.values()):
-                    return None
-                new = _Renamer(mapping).visit(copy.deepcopy(st))
-                idx = tree.body.index(st)
-                tree.body[idx] = new
-                ast.fix_missing_locations(tree)
-                return ast.unparse(tree)
-        return None
+        hit = find(tree.body, 0)
+        if not hit:
+            return None
+        body, st = hit
+        names = _local_names(st)
+        if not names:
+            return None
+        mapping = {n: n + suffix for n in names}
+        # avoid collisions
+        allnames = {w.id for w in ast.walk(st) if isinstance(w, ast.Name)}
+        if any(v in allnames for v in mapping.values()):
+            return None
+        new = _Renamer(mapping).visit(copy.deepcopy(st))
+        body[body.index(st)] = new
+        ast.fix_missing_locations(tree)
+        return ast.unparse(tree)
     return f
 
 
@@ -205,6 +221,19 @@ def run_selftest(prop, mod, base_ctx, seed):
     if not hasattr(mod, "variants"):
         return {"variants": 0, "note": "no variant generator for this property"}
     variants = list(mod.variants(base_ctx.repo))
+    # automatic preserving variants: alpha-rename the locals of every function the rules looked at (rules must find
+    # variables by role, never by name)
+    have = {v.name for v in variants}
+    for q in sorted(base_ctx.analysed_functions):
+        mname, _, fpath = q.partition(":")
+        m = base_ctx.repo.modules.get(mname)
+        if m is None or not fpath or "<" in fpath or getattr(m, "is_test", False):
+            continue
+        nm = f"auto alpha-rename {mname.split('.')[-1]}.{fpath}"
+        if nm in have or f"alpha-rename {fpath}" in have:
+            continue
+        have.add(nm)
+        variants.append(Variant(nm, os.path.relpath(m.path, base_ctx.repo.root), alpha_rename(fpath), None))
     base_ref, base_und = _summ(base_ctx)
     jobs = []
     skipped = []
